@@ -39,6 +39,7 @@ type Env struct {
 	pkg   *types.Package
 	guard string
 	depth int
+	before *State // loop invariants: the state in which the loop was entered
 }
 
 func (e *Env) with(vars map[string]Val) *Env {
@@ -231,7 +232,12 @@ func (e *Env) eval(x Expr) Val {
 				return v
 			}
 		}
-		c.fail("spec: unknown identifier %q", x.Name)
+		var have []string
+		for k := range e.vars {
+			have = append(have, k)
+		}
+		sortStrings(have)
+		c.fail("spec: unknown identifier %q (in scope: %s)", x.Name, strings.Join(have, " "))
 	case *ESel:
 		if id, ok := x.X.(*EIdent); ok {
 			if _, isVar := e.vars[id.Name]; !isVar {
@@ -297,6 +303,17 @@ func (e *Env) eval(x Expr) Val {
 			hi = e.evalIndex(x.Hi)
 		}
 		return inherit(Val{T: v.T, L: []string{v.L[0], app("bvadd", v.L[1], lo), app("bvsub", hi, lo)}}, v)
+	case *EBefore:
+		if e.before == nil {
+			e.c.fail("before() used outside a loop invariant")
+		}
+		n := *e
+		n.st = e.before
+		v := n.eval(x.X)
+		if v.St == nil {
+			v.St = n.st
+		}
+		return v
 	case *EOld:
 		o := e.inOld()
 		v := o.eval(x.X)
